@@ -47,8 +47,8 @@ MClose == \E s \in DOMAIN open :
 MMeasure == \/ \E s \in Sessions, p \in Pings : peers[s].ping = INF /\ SetPing(s, p) /\ UNCHANGED open
             \/ \E s \in Sessions, g \in Ages : peers[s].age = INF /\ SetAge(s, g) /\ UNCHANGED open
 MTick == \E d \in Ticks : now + d <= MaxNow /\ Tick(d) /\ UNCHANGED open
-MBan == \/ \E a \in Addrs, t \in BanTimes : BanAddr(a, t) /\ UNCHANGED open
-        \/ \E n \in Nets, u \in Untils : BanUntil(n, u) /\ UNCHANGED open
+MBan == \/ \E a \in Addrs, t \in BanTimes : BanAddr(a, t, {}) /\ UNCHANGED open
+        \/ \E n \in Nets, u \in Untils : BanUntil(n, u, {}) /\ UNCHANGED open
         \/ \E n \in DOMAIN bans : Unban(n) /\ UNCHANGED open
         \/ bans # <<>> /\ ClearBans /\ UNCHANGED open
         \/ \E n \in DOMAIN bans : bans[n] <= now /\ Sweep({n}) /\ UNCHANGED open
